@@ -8,7 +8,7 @@
 using namespace vf;
 
 static std::string g_name_chars(Tape &t, int maxLen, const char *forbidden) {
-  static const std::vector<std::string> chunks = {"a", "b", "Z", "0", ".", "..", " ", "%", "%41", ":", "#", "?", "+", "~", "-", "_", "&", "=", "\x7f", "\x80", "\xff", "\x01", ";", "@", "[", "]", "\\", "\\\\", "C:"};  // backslashes and drive look-alikes are ordinary characters in Unix names
+  static const std::vector<std::string> chunks = {"a", "b", "Z", "0", ".", "..", " ", "%", "%41", ":", "#", "?", "+", "~", "-", "_", "&", "=", "\x7f", "\x80", "\xff", "\x01", ";", "@", "[", "]", "\\", "\\\\", "C:", "|", "c|"};  // backslashes and drive look-alikes are ordinary characters in Unix names
   std::string s;
   int n = t.range(0, maxLen);
   for (int i = 0; i < n; i++) {
@@ -23,6 +23,7 @@ static std::string g_name_chars(Tape &t, int maxLen, const char *forbidden) {
 static std::string g_filename(Tape &t, int kind) {
   std::string s;
   int nseg = t.range(0, 4);
+  if (t.chance(1, 64)) nseg = t.range(250, 300);  // counters of separators that are narrower than int
   if (kind <= 1) {
     std::vector<std::string> segs;
     for (int i = 0; i <= nseg; i++) segs.push_back(g_name_chars(t, 5, "/"));
